@@ -14,4 +14,8 @@ def run(tier):
             reps.append(deductive.verify_function(rel, q, c, hooks=T.hooks_for(c)))
     for rel, q, c in DP.ITEMS:
         reps.append(deductive.verify_function(rel, q, c, hooks=DP.hooks_for(c)))
+    from ..contracts import emd as EM
+    for rel, q, c, sites, tag in EM.ITEMS:
+        if tag == 'C19':
+            reps.append(deductive.verify_function(rel, q, c, hooks=EM.hooks(sites), prefix='%s::%s[update equations]' % (rel, q)))
     return reps
